@@ -292,6 +292,6 @@ static void cv_observer (void) {
 	left = mc_quiesce ();
 	mc_assert (left == 0, "threads 0x%x still blocked after the rescue broadcast", left);
 }
-MC_ORACLE static void cv_final (void) { h_outcome_results (); }
+MC_ORACLE static void cv_final (void) { h_mu_idle (&mu); h_outcome_results (); }
 extern const struct mc_family fam_cv;
 const struct mc_family fam_cv = { "cv", cv_setup, cv_init, cv_thread, cv_observer, cv_final };
